@@ -88,7 +88,7 @@ func (its *MongoCollections) purgeAllDocumentsOfCollectionNum(ctx iface.OrdaCont
 	if err := its.purgeAllCollectionClients(ctx, collectionNum); err != nil {
 		return err
 	}
-	filter := schema.GetFilter().AddFilterEQ(schema.CollectionDocFields.Name, collectionNum)
+	filter := schema.GetFilter().AddFilterEQ(schema.CollectionDocFields.Num, collectionNum)
 
 	result, err2 := its.collections.DeleteOne(ctx, filter)
 	if err2 != nil {
